@@ -65,7 +65,7 @@ def analyse_compute(chk, db, fn):
     # locate the state array and b by role: the 4-element array and the scalar initialised from len << 56
     v_id = b_id = None
     phase = 'init'
-    seen_loop = seen_switch = False
+    seen_loop = False
     P = [SYM('P%d' % i) for i in range(4)]
     try:
         for st in body:
@@ -118,58 +118,101 @@ def analyse_compute(chk, db, fn):
                 chk.decide(ok3, 'H3', where + tag, '%s: loop body %s' % (label, why or 'is the SipHash compression step'), function=label)
                 ex.env[v_id] = list(P)
                 ex.env[b_id] = b_before
-            elif k == 'switch':
-                seen_switch = True
-                if b_id is None:
-                    chk.unanalysable('H4', where, 'tail switch before the block loop')
+                # ---- everything after the block loop: tail (up to the last statement with control flow) and finalisation
+                post = body[body.index(st) + 1:]
+                CF = ('for', 'while', 'do', 'switch', 'if')
+                cf = [i for i, y in enumerate(post) if y['k'] in CF or (y['k'] == 'block' and any(z.get('k') in CF for z in ir.walk(y)))]
+                split = (cf[-1] + 1) if cf else 0
+                tail, fin = post[:split], post[split:]
+                if not fin or fin[-1]['k'] != 'ret':
+                    chk.unanalysable('H5', where, '%s does not end in a return after the tail' % label)
                     return
-                cond = ex.ev(st['cond'])
-                cases = ir.stmt_list(st['body'])
-                ok4 = cond is mk('mod', length, C(8))
-                bad = [] if ok4 else ['switch is not on len %% 8 (%s)' % termx.show(cond)[:60]]
+                bad = []
+                M8 = mk('mod', length, C(8))
                 for left in range(8):
                     sub = termx.TermExec(db, fn, ex.hooks)
                     sub.env = {kk: (list(vv) if isinstance(vv, list) else vv) for kk, vv in ex.env.items()}
-                    started = False
-                    for cs in cases:
-                        node = cs
-                        if node['k'] == 'case':
-                            if not started and ir.const_of(node['v']) == left:
-                                started = True
-                            node = node['sub']
-                            while node['k'] in ('case', 'default'):
-                                node = node['sub']
-                        elif node['k'] == 'default':
-                            started = True
-                            node = node['sub']
-                        if not started:
-                            continue
-                        if node['k'] == 'break':
-                            break
-                        sub.stmt(node)
-                    got = sub.env[b_id]
+                    sub.assume = {M8: C(left)}
+                    try:
+                        sub.stmts(tail)
+                    except termx.Unsupported as e:
+                        chk.unanalysable('H4', where + tag, '%s: tail for len%%8==%d cannot be evaluated: %s' % (label, left, e))
+                        return
+                    norm = {mk('sub', length, C(left)): END} if left else {}
+                    got = termx.subst(sub.env[b_id], norm)
                     want = ref.last_word(buf, length, END, left)
                     if got is not want:
                         bad.append('len%%8==%d: %s' % (left, 'sign-extends input bytes' if has_sext(got) else
                                                        'b = %s' % termx.show(got)[:100]))
-                    if sub.env[v_id] != ex.env[v_id]:
+                    if termx.subst(sub.env[v_id], norm) != ex.env[v_id]:
                         bad.append('len%%8==%d: state modified in the tail' % left)
                 chk.decide(not bad, 'H4', where + tag, '%s: tail %s' % (label, '; '.join(bad) if bad else
                                                                   'builds len<<56 | little-endian bytes for all 8 residues'), function=label)
+                # declarations in the tail stay visible to the finalisation
+                for y in tail:
+                    if y['k'] == 'decl':
+                        try:
+                            ex.stmt(y)
+                        except termx.Unsupported:
+                            pass
                 ex.env[b_id] = SYM('B')
-            elif k == 'ret':
-                if not (seen_loop and seen_switch):
-                    chk.unanalysable('H5', where, 'return before block loop / tail switch in ' + label)
-                    return
-                got = ex.ev(st['e'])
+                for y in fin[:-1]:
+                    ex.stmt(y)
+                got = ex.ev(fin[-1]['e'])
                 want = ref.finalize(P, SYM('B'))
                 chk.decide(got is want, 'H5', where + tag, '%s: finalisation %s' % (label, 'matches' if got is want else
                                                                              'differs: ' + termx.show(got)[:160]), function=label)
+                break
+            elif k in ('while', 'do', 'switch', 'if'):
+                chk.unanalysable('H2', where + tag, '%s: control flow before the block loop is not in a recognised form (%s)' % (label, k))
+                return
+            elif k == 'ret':
+                chk.unanalysable('H5', where, 'return before the block loop in ' + label)
                 return
             else:
                 ex.stmt(st)
     except termx.Unsupported as e:
         chk.unanalysable('H3', where, 'cannot evaluate %s over terms: %s' % (label, e))
+
+
+LENGTHS = list(range(0, 18)) + [23, 24, 25, 31, 32, 33, 63, 64, 65, 127, 255, 256, 257]
+LENGTHS_THOROUGH = LENGTHS + list(range(18, 130)) + [511, 512, 513, 1000, 1023, 1024, 4096, 4099]
+
+
+def reference_hash(buf, n, k0, k1):
+    v = ref.init(k0, k1)
+    end = n - n % 8
+    for off in range(0, end, 8):
+        v = ref.compress(v, ref.word(buf, C(off)))
+    return ref.finalize(v, ref.last_word(buf, C(n), C(end), n % 8))
+
+
+def analyse_lengths(chk, db, fn, lengths):
+    """HL: the whole function, control flow and all, evaluated for a fixed length over a symbolic buffer and symbolic keys"""
+    where = facts.site(fn)
+    label = ir.fn_label(fn)
+    elem = re.search(r'BlockReader<([^>]*)>', fn['q'])
+    tag = ' [%s]' % (elem.group(1) if elem else '?')
+    buf, k0, k1 = SYM('buf'), SYM('k0'), SYM('k1')
+    bad = []
+    for n in lengths:
+        hk = hooks(buf)
+        hk['size'] = lambda ex, e, n=n: C(n)
+        ex = termx.TermExec(db, fn, hk)
+        ps = fn['params']
+        ex.bind(ps[0]['id'], buf)
+        ex.bind(ps[1]['id'], k0)
+        ex.bind(ps[2]['id'], k1)
+        try:
+            got = ex.run_body(fn['body'])
+        except termx.Unsupported as e:
+            chk.unanalysable('HL', where + tag, '%s cannot be evaluated for length %d: %s' % (label, n, e))
+            return
+        if got is not reference_hash(buf, n, k0, k1):
+            bad.append(n)
+    chk.decide(not bad, 'HL', where + tag, '%s: as a term over the input bytes and keys, the result %s SipHash-2-4 for lengths %s' % (
+        label, 'differs from' if bad else 'equals', bad if bad else '%d..%d (%d lengths)' % (min(lengths), max(lengths), len(lengths))),
+        function=label)
 
 
 def rules(chk, db):
@@ -178,6 +221,7 @@ def rules(chk, db):
     chk.rule('H3', 'loop body is the SipHash compression of the zero-extended little-endian word', minimum=2)
     chk.rule('H4', 'tail: len<<56 | little-endian remaining bytes for all residues 0..7', minimum=2)
     chk.rule('H5', 'finalisation v2^=0xff, 4 rounds, xor of the state', minimum=2)
+    chk.rule('HL', 'whole function for fixed lengths (symbolic bytes and keys) equals the reference term', minimum=2)
     chk.rule('W', 'array wrapper / BlockReader expose all elements in order with the keys in order', minimum=3)
     chk.rule('X', 'no compile-time/run-time divergence in the hash functions', minimum=1)
     sip = [f for f in db.fns if f.get('rec', '').endswith('::SipHash') and 'body' in f]
@@ -191,6 +235,7 @@ def rules(chk, db):
             continue
         done.add(f['params'][0]['t'])
         analyse_compute(chk, db, f)
+        analyse_lengths(chk, db, f, LENGTHS_THOROUGH if getattr(chk, 'tier', 'quick') == 'thorough' else LENGTHS)
     # W: wrapper
     for f in sip:
         if f['n'] == 'Compute' and f['params'] and '(&)[' in f['params'][0]['t']:
